@@ -32,6 +32,11 @@ Stages
      make_block_solver (block size 2).  "Fresh object for command k" = constructed from the same arguments and
      brought up to date with the LAST successful rebuild / partial_update before k.  Constructor matrix,
      per-command matrices and right-hand sides are compared before/after every command.
+  5b. the exact amg / make_solver<amg, S> histories (S in none, cg, richardson, bicgstab, gmres, fgmres) are also compared
+     with the extracted STATE-PASSING model object (second model driver: coq/Extract_reuse.v + ocaml/reuse/ops_reuse.ml,
+     op msm): ReuseProofs2.cg_sp .. ReuseProofs3.fgmres_sp with the preconditioner = Amg.apply on the scratch list,
+     amg scratch and solver workspace (junk-filled at construction) threaded through the whole script; transfer
+     operators taken from the implementation's dump (C04).
 """
 import random
 from fractions import Fraction as F
@@ -52,10 +57,11 @@ TRUSTED_BASE = [
     "bicgstab: r,p,v,s,t,rh,T; richardson: r,s; gmres/fgmres: H,s,cs,sn,r,v[],z[]; lgmres: the same + outer_v (ring of slot "
     "indices) and outer_v_data[]; bicgstabl: Rt,X,B,T,R[],U[] (MZa,MZb,Y0,YL,qr scratch are written completely before "
     "they are read in every polynomial part and are local in the model); idrs: M,f,c,r,v,t,x_s,r_s,G[],U[] + constant shadow space P[])",
-    "objects (stage 5): harness/reuse_common.hh, reuse_amg.hh, drv_reuse*.cpp; the comparison is implementation (one object) vs "
-    "implementation (fresh objects), no model run; the link to the models is C02 (amg apply sequences vs Amg.v), C16 (skyline), "
-    "C06 (chebyshev) and stages 1-1b (solvers); state-passing solver models cg_sp .. fgmres_sp (ReuseProofs2/3.v) are proved equal "
-    "to the extracted pure models for a stateless preconditioner, they are not extracted themselves",
+    "objects (stage 5): harness/reuse_common.hh, reuse_amg.hh, drv_reuse*.cpp; the reuse comparison is implementation (one object) vs "
+    "implementation (fresh objects); stage 5b: Extract_reuse.v + ocaml/reuse/ops_reuse.ml (hand-written driver: parses the script, holds the "
+    "object state in OCaml references between commands, Chebyshev smoother work vectors in OCaml references as in ocaml/amg/ops_amg.ml); "
+    "for the objects without a model run (as_preconditioner, skyline_lu, deflated_solver, cpr, schur, make_block_solver, make_solver with "
+    "lgmres/bicgstabl/idrs) the link to the models is C02, C16, C06, C18 and stages 1-1b",
 ]
 ASSUMPTIONS = [
     "C15-A1 (junk independence) is proved for every Scalar record whose zero satisfies is_zero 0 = true (IEEE floats do); "
